@@ -467,9 +467,9 @@ func domSliceOf[T any, S ~[]T](e dom[T], maxLen int) dom[S] {
 
 // firstDiffCap: ord.TupleN needs time exponential in the position of the first
 // differing component (about 2x per position, > 1 s per Less call at position 20),
-// so the quick tier only places the *first* difference at positions 0..15; the
+// so the quick tier only places the *first* difference at positions 0..14; the
 // thorough tier uses every position.
-func firstDiffCap() int { return kit.Pick(15, 1<<30) }
+func firstDiffCap() int { return kit.Pick(14, 1<<30) }
 
 // domFixed: T is isomorphic to [n]int. Near-copies differ at exactly one
 // uniformly chosen position, or at two positions changed in opposite
